@@ -1,15 +1,108 @@
 package main
 
 import (
+	"flag"
 	"fmt"
-	"golang.org/x/tools/go/packages"
+	"os"
+	"sort"
+	"strings"
 )
 
 func main() {
-	cfg := &packages.Config{Mode: packages.NeedName | packages.NeedFiles | packages.NeedSyntax | packages.NeedTypes | packages.NeedTypesInfo | packages.NeedImports | packages.NeedDeps, Dir: "/repo", BuildFlags: []string{"-tags=verif"}}
-	pkgs, err := packages.Load(cfg, "./...")
-	fmt.Println(len(pkgs), err)
-	for _, p := range pkgs {
-		fmt.Println(p.PkgPath, len(p.Syntax), p.Errors)
+	if len(os.Args) < 2 {
+		fmt.Fprintln(os.Stderr, "usage: govc verify|check ...")
+		os.Exit(2)
+	}
+	switch os.Args[1] {
+	case "verify":
+		cmdVerify(os.Args[2:])
+	case "check":
+		cmdCheck(os.Args[2:])
+	default:
+		fmt.Fprintln(os.Stderr, "unknown command", os.Args[1])
+		os.Exit(2)
 	}
 }
+
+func cmdVerify(args []string) {
+	fs := flag.NewFlagSet("verify", flag.ExitOnError)
+	repo := fs.String("repo", "/repo", "repository root")
+	spec := fs.String("spec", "/verif/spec", "spec library directory")
+	arch := fs.String("goarch", "", "GOARCH")
+	funcs := fs.String("funcs", "", "comma separated function keys")
+	timeout := fs.Int("timeout", 30, "per-obligation timeout (s)")
+	verbose := fs.Bool("v", false, "verbose")
+	dump := fs.String("dump", "", "dump query of obligation with this name")
+	fs.Parse(args)
+	eng, err := NewEngine(*repo, *arch, "verif")
+	if err != nil {
+		fmt.Fprintln(os.Stderr, "load:", err)
+		os.Exit(2)
+	}
+	eng.timeoutS = *timeout
+	if err := LoadSpecLibrary(*spec); err != nil {
+		fmt.Fprintln(os.Stderr, "spec:", err)
+		os.Exit(2)
+	}
+	if err := eng.LoadContracts(ContractFiles(*repo, *spec)); err != nil {
+		fmt.Fprintln(os.Stderr, "contracts:", err)
+		os.Exit(2)
+	}
+	var keys []string
+	if *funcs == "" {
+		for k, c := range eng.contracts {
+			if !c.Assume {
+				keys = append(keys, k)
+			}
+		}
+		sort.Strings(keys)
+	} else {
+		keys = strings.Split(*funcs, ",")
+	}
+	bad := 0
+	for _, k := range keys {
+		rep := eng.VerifyFunc(k)
+		if rep.Status != "ok" {
+			fmt.Printf("%-50s %s: %s\n", k, rep.Status, rep.Reason)
+			bad++
+			continue
+		}
+		eng.SolveAll(rep.Obligs)
+		np, nt := 0, 0
+		for _, o := range rep.Obligs {
+			if o.Res.Verdict == Proved {
+				np++
+				if o.Trivial {
+					nt++
+				}
+			}
+		}
+		fmt.Printf("%-50s %d/%d proved (%d by simplifier) %.1fs inlined=%v\n", k, np, len(rep.Obligs), nt, rep.Seconds, rep.Inlined)
+		for _, o := range rep.Obligs {
+			if o.Res.Verdict != Proved || *verbose {
+				fmt.Printf("   %-8s %s [%s] %s %.2fs %s\n", o.Res.Verdict, o.Name, o.Pos, o.Res.Solver, o.Res.Seconds, o.Res.Detail)
+			}
+			if o.Res.Verdict != Proved {
+				bad++
+				if o.Res.Model != "" && *verbose {
+					fmt.Println(truncate(o.Res.Model, 2000))
+				}
+			}
+			if *dump != "" && o.Name == *dump && o.query != nil {
+				os.WriteFile("/tmp/dump.smt2", []byte(o.query.Text), 0o644)
+			}
+		}
+	}
+	if bad > 0 {
+		os.Exit(1)
+	}
+}
+
+func truncate(s string, n int) string {
+	if len(s) > n {
+		return s[:n] + "..."
+	}
+	return s
+}
+
+func cmdCheck(args []string) {}
